@@ -123,6 +123,9 @@ def run(ctx):
         v = kwarg(c, "vary")
         if v is None:
             raise AnalysisError("C05-R1: no vary= for %s" % sfx)
+        if isinstance(v, ast.Name) and v.id != "stage":
+            from .c08 import _resolve_local
+            v = _resolve_local(rf.node, v)
         table = {st: bool(ev_stage(v, st)) for st in (1, 2, 3)}
         ctx.check("C05-R1", rf, "vary(%s) = %s -> %s" % (sfx, norm(v), table),
                   table == SPEC[sfx],
